@@ -292,6 +292,24 @@ CLAIMS = {
   technique="Lean 4 theorem proving (buffer bounds for all inputs; ownership scripts over all JSON types) + sanitizer-"
             "instrumented mutation differential (validation)",
   design="§6 C09"),
+ "C20": dict(
+  text="PARTIAL (runtime property). Proved (Lean 4) on the chain model, where an allocation failure is a call the sink or a "
+       "stage answers false: for every chain of codecs/transformers over a sink whose k-th call fails and every chunking, the "
+       "run reports failure, whether the failing call is a feed or the final done; hence a reported success means the "
+       "failing call never took place (the run was the fault-free one); a transformer that cannot produce its output fails "
+       "done; the header functions return nothing and stay balanced on their allocation-failure paths. Validated by "
+       "exhaustive fault enumeration on the working tree (library malloc family redirected on the compile line, jansson "
+       "allocator replaced with stack-walk attribution): 139 scenarios covering every operation kind and algorithm family, "
+       "N allocations counted, the k-th failed for every k in 1..N (11.4k faulted runs, each x3 under ASan/UBSan): no crash, "
+       "failure or the fault-free/valid result, heap balance.",
+  note="Trusted: Lean kernel, standard axioms; harness/hx_alloc.c; ASan/UBSan. OpenSSL's internal allocations are not failed. "
+       "Found and fixed: F22 (zip lookup ignored a failed header decode: compressed bytes returned as plaintext / compression "
+       "skipped), F4 (hash done returned true on failure). Known findings (open, printed as KNOWN-FINDING): jansson 2.14 "
+       "json_dumps / json_object_update_missing report success after an internal allocation failure, json_loadb crashes, and "
+       "latchset/jose reads json_unpack's failure as 'member absent' (~60 sites).",
+  technique="Lean 4 theorem proving (failure propagation, by induction over chain syntax) + exhaustive per-scenario "
+            "allocation-fault enumeration (validation)",
+  design="§6 C20"),
 }
 
 NOT_YET = "check not built yet (framework under construction); will be claimed when its Lean theorems and correspondence exist"
